@@ -27,7 +27,20 @@ CONFIGS = {
 }
 
 
+def atombase_lenient():
+    """AtomBase's and/or short-circuit with a missing right operand is a C01 finding; the machine is lenient while it is open."""
+    return any(f["key"] == "logic-rhs-missing" for f in C.Findings("C01").open)
+
+
 def mc_module(cf, maxlen, ncalls, reset, alpha, lenient=None):
+    if lenient is None:
+        lenient = cf["lenient"] and atombase_lenient()
+    if C.tier() == "quick" and ncalls == 2:
+        # quick: every expression of the universe as FIRST call, followed by every short probe
+        plans = ("{<<e1, e2>> : e1 \\in MCExprs, e2 \\in StringsUpTo(" + C.tla_str(set(alpha)) + ", 2) \\cup Wrapped(StringsUpTo("
+                 + C.tla_str(set(alpha)) + ", 1))}")
+    else:
+        plans = f"PlansOver(MCExprs, {ncalls})"
     return f"""---- MODULE SolverHistMC ----
 EXTENDS Solver, SolverHist, Json
 MCAtoms == {C.tla_str(set(cf['atoms']))}
@@ -35,7 +48,7 @@ MCBad == {C.tla_str(set(cf['bad']))}
 MCOpTable == {cf['table']}
 MCSteps == {cf['steps']}
 MCExprs == StringsUpTo({C.tla_str(set(alpha))}, {maxlen}) \cup Wrapped(StringsUpTo({C.tla_str(set(alpha))}, 2))
-MCPlans == PlansOver(MCExprs, {ncalls})
+MCPlans == {plans}
 MCProbes == StringsUpTo({C.tla_str(set(alpha))}, 2)
 MCReset == {C.tla_str(reset)}
 MCLenient == {C.tla_str(cf['lenient'] if lenient is None else lenient)}
